@@ -67,7 +67,7 @@ MIN_EVALS = {"setitem_contract": 20000, "section_assign": 1000, "h5_attribute": 
              "rejected_not_stored": 2000, "rejected_with_warning": 500,
              "case_insensitive": 5000, "idempotent": 3000, "text_roundtrip": 2000,
              "text_setting": 1000, "file_roundtrip": 2000, "export_roundtrip": 2000,
-             "compress_roundtrip": 1000, "writer_rejects": 500, "seq_state": 1000}
+             "compress_roundtrip": 1000, "writer_rejects": 500, "seq_state": 1000, "registry_history": 800}
 WATCHDOG_S = {"quick": 400, "thorough": 3000}
 NSHARD = 16
 N_EVENTS = 7
@@ -240,6 +240,8 @@ def plan(tier, seed):
     nseq = 320 if tier == "quick" else 6400
     for c in _stride(nseq):
         shards.append({"kind": "seq", "cases": c})
+    for c in _stride(160 if tier == "quick" else 3200):
+        shards.append({"kind": "registry", "cases": c})
     if tier == "thorough":
         for c in _stride(len(FULL_FEATS) ** 2):
             shards.append({"kind": "mempairs", "cases": c})
@@ -1379,6 +1381,135 @@ def run_seq(ctx, idx):
     _State.route = "-"
 
 
+# ------------------------------------------------------------------- registry histories
+def run_registry(ctx, idx):
+    """Histories that change the feature registry between two uses of the same pattern key.
+
+    Whether "<feature> soft limit", "<f1>,<f2> polygon points" or a "filtering" range is a
+    known key depends on the features registered *now* (temporary and plug-in features come
+    and go at run time), not on what was registered when the key was first seen."""
+    import h5py
+    import dclab
+    from dclab import RTDCWriter
+    from dclab.rtdc_dataset import config as dconfig, feat_temp, fmt_hdf5
+    rng = ctx.rng(idx, salt=77)
+    feats = [f"vm{idx}x", f"vm{idx}y"]
+    keyspace = []
+    for f in feats:
+        keyspace += [("online_filter", f"{f} min", 1.5), ("online_filter", f"{f} max", 2.5),
+                     ("online_filter", f"{f} {mt.SOFT}", "True"),
+                     ("online_filter", f"area_um,{f} {mt.POLY}", [[0, 1], [2, 3], [4, 5.5]]),
+                     ("online_filter", f"{f},deform {mt.SOFT}", "False"),
+                     ("filtering", f"{f} min", 0.25), ("filtering", f"{f} max", 7.0)]
+    keyspace.append(("online_filter", f"{feats[0]},{feats[1]} {mt.POLY}", [[0, 0], [1, 0], [1, 1]]))
+    keys = [keyspace[int(i)] for i in rng.choice(len(keyspace), size=4, replace=False)]
+    hist = []
+    flips = 0
+    seen = {}       # key -> set of statuses it was used under
+    mt.REGISTERED.clear()
+    try:
+        for step in range(int(rng.integers(8, 24))):
+            r = rng.random()
+            if r < 0.3:
+                f = feats[int(rng.integers(0, 2))]
+                if f in mt.REGISTERED:
+                    feat_temp.deregister_temporary_feature(f)
+                    mt.REGISTERED.discard(f)
+                    hist.append(["deregister", f])
+                else:
+                    dclab.register_temporary_feature(f)
+                    mt.REGISTERED.add(f)
+                    hist.append(["register", f])
+                flips += 1
+                continue
+            sec, key, value = keys[int(rng.integers(0, len(keys)))]
+            st, typ, out = mt.normalise(sec, key, value)
+            known = st == "known"
+            seen.setdefault((sec, key), set()).add(known)
+            route = ["assign", "update", "cfg_update", "construct", "file", "writer"][
+                int(rng.choice(6, p=[0.3, 0.15, 0.1, 0.15, 0.15, 0.15]))]
+            if sec == "filtering" and route in ("file", "writer"):
+                route = "assign"
+            hist.append([route, sec, key, "known" if known else "unknown"])
+            _State.route = f"registry:{route}"
+
+            def wit(**kw):
+                d = {"history": hist[-10:], "registered_now": sorted(mt.REGISTERED),
+                     "section": sec, "key": key, "value": show(value),
+                     "reference": "known key: store converted" if known else "unknown key: "
+                     "warn, do not store"}
+                d.update(kw)
+                return d
+            stored = _MISSING
+            warned = None
+            exc = None
+            if route in ("assign", "update", "cfg_update", "construct"):
+                if route == "construct":
+                    c = attempt(lambda: dconfig.Configuration(cfg={sec: {key: value}}))
+                    cfg = c.result
+                else:
+                    cfg = fresh_cfg()
+                    if route == "assign":
+                        c = attempt(lambda: cfg[sec].__setitem__(key, value))
+                    elif route == "update":
+                        c = attempt(lambda: cfg[sec].update({key: value}))
+                    else:
+                        c = attempt(lambda: cfg.update({sec: {key: value}}))
+                exc = c.exc
+                warned = "UnknownConfigurationKeyWarning" in c.warnings
+                if cfg is not None:
+                    stored = lookup(get_section(cfg, sec), key)
+            elif route == "file":
+                # an .rtdc file that carries the key is opened now
+                with h5py.File(f"c11-reg-{os.getpid()}", "w", driver="core",
+                               backing_store=False) as h5:
+                    h5.attrs[f"{sec}:{key}"] = (np.asarray(value, dtype=float)
+                                                if isinstance(value, list) else value)
+                    c = attempt(lambda: fmt_hdf5.RTDC_HDF5.parse_config(h5))
+                    exc = c.exc
+                    warned = "UnknownConfigurationKeyWarning" in c.warnings
+                    if c.result is not None:
+                        stored = lookup(get_section(c.result, sec), key)
+            else:
+                with h5py.File(f"c11-reg-{os.getpid()}", "w", driver="core",
+                               backing_store=False) as h5:
+                    hw = RTDCWriter(h5)
+                    c = attempt(lambda: hw.store_metadata({sec: {key: value}}))
+                    if known:
+                        exc = c.exc
+                    if f"{sec}:{key}" in h5.attrs:
+                        c2 = attempt(lambda: fmt_hdf5.RTDC_HDF5.parse_config(h5))
+                        if c2.result is not None:
+                            stored = lookup(get_section(c2.result, sec), key)
+            if known:
+                ok = exc is None and stored is not _MISSING and mt.values_equal(stored, out.value)
+                msg = (f"[{sec}]:{key!r} is a known key now (feature registered) but was "
+                       f"{'refused' if stored is _MISSING else 'stored as %r' % (stored,)} "
+                       f"via {route} (exc={exc!r})")
+            else:
+                ok = stored is _MISSING and (warned is None or warned or exc is not None)
+                msg = (f"[{sec}]:{key!r} is an unknown key now (feature not registered) but "
+                       f"{'was stored' if stored is not _MISSING else 'no warning was given'} "
+                       f"via {route}")
+            ctx.check("registry_history", ok,
+                      lambda: wit(stored="<absent>" if stored is _MISSING else show(stored),
+                                  warned=warned, exc=repr(exc)),
+                      message=msg)
+            ctx.count(f"registry_route[{route}:{'known' if known else 'unknown'}]")
+    finally:
+        for f in list(mt.REGISTERED):
+            feat_temp.deregister_temporary_feature(f)
+        mt.REGISTERED.clear()
+        _State.route = "-"
+    both = sum(1 for v in seen.values() if len(v) == 2)
+    ctx.count("registry_keys_used_under_both_statuses", both)
+    ctx.count("registry_changes", flips)
+    if both:
+        ctx.mark_nontrivial(["registry", hist])
+    if idx % 53 == 0:
+        ctx.sample({"kind": "registry", "history": hist[:10]})
+
+
 # ------------------------------------------------------------------------ entry point
 def run(spec, ctx):
     _State.ctx = ctx
@@ -1411,5 +1542,8 @@ def run(spec, ctx):
     elif kind == "seq":
         for idx in ctx.case_ids():
             run_seq(ctx, idx)
+    elif kind == "registry":
+        for idx in ctx.case_ids():
+            run_registry(ctx, idx)
     else:
         raise ValueError(kind)
